@@ -21,6 +21,7 @@ static mut REPLY: [u8; 24] = [0; 24];
 static mut MAX_CALLS: usize = 8;
 static mut REQ: [u8; 16] = [0; 16];
 static mut REQ_SEEN: bool = false;
+static mut RD_WKC: u16 = 1;
 
 fn dev(req: &H1Request, resp: &mut H1Response) {
     unsafe {
@@ -37,6 +38,7 @@ fn dev(req: &H1Request, resp: &mut H1Response) {
             } else if register == SM_WR_STATUS {
                 resp.data[0] = 0x00;
             } else if register == RD_ADDR {
+                resp.wkc = unsafe { RD_WKC };
                 let mut i = 0;
                 while i < 24 {
                     resp.data[i] = unsafe { REPLY[i] };
@@ -117,4 +119,142 @@ pub fn c16_sdo_read_any_reply() {
             assert!(v == u32::from_le_bytes([reply[12], reply[13], reply[14], reply[15]]));
         }
     }
+}
+
+// ---- C14: DeviceEeprom::write_word retries a word while the device reports a command error ------
+static mut ERRORS_LEFT: u32 = 0;
+static mut WORD_WRITES: u32 = 0;
+static mut LAST_WORD: [u8; 2] = [0; 2];
+static mut LAST_WORD_ADDR: u16 = 0;
+static mut CMD_ERR: bool = false;
+
+fn sii_dev(req: &H1Request, resp: &mut H1Response) {
+    resp.wkc = 1;
+    match req.command {
+        Command::Read(Reads::Fprd { register, .. }) => {
+            if register == 0x0502 {
+                // never busy; command error flag as left by the last write command
+                resp.data[0] = 0;
+                resp.data[1] = if unsafe { CMD_ERR } { 0x20 } else { 0 };
+            }
+        }
+        Command::Write(Writes::Fpwr { register, .. }) => unsafe {
+            if register == 0x0508 {
+                LAST_WORD = [req.data[0], req.data[1]];
+            } else if register == 0x0502 {
+                // control + address: a write command for one word
+                WORD_WRITES += 1;
+                LAST_WORD_ADDR = u16::from_le_bytes([req.data[2], req.data[3]]);
+                if ERRORS_LEFT > 0 {
+                    ERRORS_LEFT -= 1;
+                    CMD_ERR = true;
+                } else {
+                    CMD_ERR = false;
+                }
+            }
+        },
+        _ => {}
+    }
+}
+
+//@ harness: c14_write_word_retry
+//@ property: C14
+//@ tier: thorough
+//@ config: h1
+//@ unwind: 24
+//@ timeout: 3000
+//@ functions: DeviceEeprom::write_word; DeviceEeprom::wait_while_busy; WrappedWrite::send; WrappedRead::receive; SiiRequest::write; SiiControl::unpack_from_slice
+//@ bounds: one word written to a device that answers k in {19, 20, 21, 22} (symbolic) consecutive command errors and is never busy: the word is issued min(k, 20) + 1 times (one attempt plus at most 20 retries) with the same data and address, and the call returns
+//@ stubs: embassy_time_driver::now -> virtual clock (never advances); schedule_wake -> no-op
+//@ assumes: transport = H1 scripted SII device; k below 19 is the same loop with fewer iterations
+#[kani::proof]
+#[kani::unwind(24)]
+#[kani::stub(embassy_time_driver::now, crate::verif::support::vnow)]
+#[kani::stub(embassy_time_driver::schedule_wake, crate::verif::support::vschedule_wake)]
+pub fn c14_write_word_retry() {
+    use crate::eeprom::{EepromDataProvider, device_provider::DeviceEeprom};
+    let (_tx, _rx, pdu_loop) = STORAGE.try_split().unwrap();
+    let md = MainDevice::new(pdu_loop, Timeouts::default(), MainDeviceConfig::default());
+    set_now(0);
+    let k: u32 = kani::any();
+    kani::assume(k >= 19 && k <= 22);
+    unsafe {
+        ERRORS_LEFT = k;
+        WORD_WRITES = 0;
+        CMD_ERR = false;
+    }
+    install(sii_dev);
+    let word: u16 = kani::any();
+    let data: [u8; 2] = kani::any();
+    let mut e = DeviceEeprom::new(&md, 0x1001);
+    let r = run_ready(e.write_word(word, data));
+    kani::cover!(k == 20);
+    assert!(r.is_ok());
+    let n = unsafe { WORD_WRITES };
+    let expect = if k < 20 { k + 1 } else { 21 };
+    assert!(n == expect);
+    assert!(unsafe { LAST_WORD } == data && unsafe { LAST_WORD_ADDR } == word);
+}
+
+
+// ---- C15/C11: expedited upload of a 4-byte object; the read that fetches the response is checked --
+//@ harness: c15_sdo_read_expedited
+//@ property: C15, C11
+//@ tier: thorough
+//@ config: h1
+//@ unwind: 4
+//@ timeout: 3000
+//@ functions: SubDeviceRef::sdo_read; Coe::sdo_read; Coe::mailbox_write_read; Coe::wait_for_mailboxes; Coe::wait_for_mailbox_response; SdoNormal::upload; SubDevice::mailbox_counter
+//@ bounds: one expedited upload of a 4-byte object (symbolic index, sub-index 1, symbolic data bytes) from a 24-byte mailbox; the working counter of the datagram that fetches the response is symbolic
+//@ stubs: embassy_time_driver::now -> virtual clock (never advances); schedule_wake -> no-op
+//@ assumes: transport = H1 scripted device; SM status script as in c16_sdo_read_any_reply
+//@ outside: normal and segmented uploads, downloads, other object sizes, mailbox sizes other than 24
+#[kani::proof]
+#[kani::unwind(4)]
+#[kani::stub(embassy_time_driver::now, crate::verif::support::vnow)]
+#[kani::stub(embassy_time_driver::schedule_wake, crate::verif::support::vschedule_wake)]
+pub fn c15_sdo_read_expedited() {
+    let (_tx, _rx, pdu_loop) = STORAGE.try_split().unwrap();
+    let md = MainDevice::new(pdu_loop, Timeouts::default(), MainDeviceConfig::default());
+    set_now(0);
+    let index: u16 = kani::any();
+    let obj: [u8; 4] = kani::any();
+    let wkc: u16 = kani::any();
+    // a well-formed expedited upload response for (index, 1): mailbox header (len 10, CoE),
+    // CoE header (SDO response), SDO header (expedited, size indicated, 4 bytes, upload response)
+    let mut reply = [0u8; 24];
+    reply[0] = 10;
+    reply[5] = 0x03;
+    reply[7] = 0x30;
+    reply[8] = 0x43;
+    reply[9] = index.to_le_bytes()[0];
+    reply[10] = index.to_le_bytes()[1];
+    reply[11] = 1;
+    reply[12] = obj[0];
+    reply[13] = obj[1];
+    reply[14] = obj[2];
+    reply[15] = obj[3];
+    unsafe {
+        REPLY = reply;
+        MAX_CALLS = 8;
+        REQ_SEEN = false;
+        RD_WKC = wkc;
+    }
+    install(dev);
+    let sd = mk_sd();
+    let r = SubDeviceRef::new(&md, 0x1001, &sd);
+    let res = run_ready(r.sdo_read::<u32>(index, 1u8));
+    kani::cover!(res.is_ok());
+    kani::cover!(res.is_err());
+    if wkc == 1 {
+        // exactly the object's bytes
+        assert!(res == Ok(u32::from_le_bytes(obj)));
+    } else {
+        // the device did not service the read that fetches the response: no data, wkc error
+        assert!(res == Err(Error::WorkingCounter { expected: 1, received: wkc }));
+    }
+    // the request carried the right index/sub-index and mailbox counter 1 (first request)
+    let q = unsafe { REQ };
+    assert!(u16::from_le_bytes([q[9], q[10]]) == index && q[11] == 1);
+    assert!(q[5] >> 4 == 1);
 }
